@@ -100,7 +100,9 @@ def gen_cases(ctx):
     # -- 6. > 32 chars then a bad sequence (the "break then throw next time" rule)
     for n in (31, 32, 33, 34, 40):
         add("late-bad", "u8from 64 %s" % hx([0x41] * n + [0xF5, 0x80, 0x80, 0x80] + pad, 2))
-        add("late-bad-ascii", "asciifrom 64 %s" % hx([0x41] * n + [0x80] + pad, 2))
+        for bad in (0x80, 0xE9, 0xFF):
+            add("late-bad-ascii", "asciifrom 64 %s" % hx([0x41] * n + [bad] + pad, 2))
+            add("late-bad-ascii", "asciifrom %d %s" % (n + 1, hx([0x41] * n + [bad] + pad, 2)))
     # -- 7. UCS-4 decode: boundary and random 32-bit values in both byte orders
     v4 = [0, 0x41, 0xD7FF, 0xD800, 0xDBFF, 0xDC00, 0xDFFF, 0xE000, 0xFFFF, 0x10000, 0x10FFFF, 0x110000, 0x7FFFFFFF,
           0x80000000, 0xFFFFFFFF, 0x00410000, 0x41000000] + [rng.randrange(1 << 32) for _ in range(300)] + \
@@ -331,6 +333,17 @@ def spec_check(req, impl, xm):
                 return "violates", "UCS-4 value %X is not a scalar value but was decoded" % v
             want += utf16_of(v)
         return ("ok", "") if units == want else ("violates", "decoded units differ")
+    if op in ("asciifrom", "latin1from"):
+        # every byte that is reported as eaten must have been decoded to exactly its code point; US-ASCII accepts
+        # only bytes below 0x80 (an illegal byte is rejected, never skipped)
+        src = parse_units(a[2], 2)
+        if impl.startswith("err"):
+            return ("ok", "") if op == "asciifrom" and any(x >= 0x80 for x in src) else ("violates", "legal input rejected")
+        i = impl.split()
+        eaten, units = int(i[1]), parse_units(i[2], 4)
+        if units != src[:eaten] or (op == "asciifrom" and any(x >= 0x80 for x in src[:eaten])):
+            return "violates", "bytes counted as eaten were not decoded to their code points (illegal byte skipped or altered)"
+        return "ok", ""
     if op == "probe":
         # XML 1.0 Appendix F / theorems T05_probe_decl, T05_probe_bom16, T05_probe_bom4, T05_probe_utf8_bom
         b = parse_units(a[1], 2)
